@@ -150,10 +150,15 @@ func (w *World) State() *State {
 	d := w.in.Dump()
 	now := verifrt.Now().UnixMilli()
 	st := &State{Dump: d, Alpha: alphaOf(d), NowMs: now}
+	fh := ""
+	if w.fs != nil {
+		fh = fsHash(verifrt.FS())
+	}
 	b, err := json.Marshal(struct {
 		D sugardb.VerifDump
 		N int64
-	}{d, now})
+		F string
+	}{d, now, fh})
 	if err != nil {
 		panic(err)
 	}
